@@ -38,7 +38,11 @@ def boom(x):
     raise ValueError('boom')
 
 
-PREDS = {'pos': pos, 'boom': boom}
+def ratio(x):
+    return 1 / x > 0.5        # ZeroDivisionError on 0, TypeError on non-numbers: any exception of a predicate is a rejection
+
+
+PREDS = {'pos': pos, 'boom': boom, 'ratio': ratio}
 
 # ------------------------------------------------------------------ targets
 
@@ -470,7 +474,7 @@ def run_case(case):
 # ------------------------------------------------------------------ pattern generator
 
 LEAVES = [['lit', 1], ['lit', 'a'], ['lit', None], ['type', 'int'], ['type', 'str'], ['type', 'object'],
-          ['regex', 'a+'], ['pred', 'pos'], ['pred', 'boom'], ['M', '>', 0], ['M', '==', 'a'], ['M', '>=', 0], ['M', '<=', 0.5], ['M', '!=', 'a'],
+          ['regex', 'a+'], ['pred', 'pos'], ['pred', 'boom'], ['pred', 'ratio'], ['M', '>', 0], ['M', '==', 'a'], ['M', '>=', 0], ['M', '<=', 0.5], ['M', '!=', 'a'],
           ['and', [['type', 'int'], ['M', '>', 0]]], ['or', [['type', 'int'], ['type', 'str']]], ['or', [['lit', 1], ['lit', 'a']]],
           ['not', ['type', 'str']], ['not', ['lit', 1]]]
 HASHABLE_KEYS = [['lit', 'k'], ['lit', 1], ['type', 'str'], ['type', 'int'], ['type', 'object'], ['regex', 'k+'],
